@@ -482,9 +482,9 @@ from elementpath.xpath31 import XPath31Parser             # noqa: E402
 
 CONS_PATTERNS = [r'b', r'a+', r'[0-9]+', r'(a)(c)?b', r'(\d+)(\.\d+)?', r'(a)|(b)', r'\s+', r',\s*', r'(ab)+', r'a.c', r'x|yz', r'(a(b))(c)?', r'[a-c-[b]]', r'\p{Lu}',
                  r'1.2', r'^a', r'c$', r'(a)\1', r'(?:a|b)c' if False else r'(a|b)c', r'A', r'a b', r'\.', r'(b)(?:)' if False else r'(b)', r'é+', r'[^,]+', r'-',
-                 r'(a)(b)(c)(d)(e)(f)(g)(h)(i)(j)\10', r'(a)(b)(c)(d)(e)(f)(g)(h)(i)\10', r'(a)(b)(c)(d)(e)(f)(g)(h)(i)(j)(k)(l)\11', r'(.)\1', r'(a*)b\1', r'<', r'&|b', r'(<)(b)?', r'\\']
+                 r'(a)(b)(c)(d)(e)(f)(g)(h)(i)(j)\10', r'(a)(b)(c)(d)(e)(f)(g)(h)(i)\10', r'(a)(b)(c)(d)(e)(f)(g)(h)(i)(j)(k)(l)\11', r'(.)\1', r'(a*)b\1', r'<', r'&|b', r'(<)(b)?', r'\\', r'a#b', r'[\$x]', r'\$', r'\i\c*', r'[\i-[:]]+']
 CONS_SUBJECTS = ['', 'abc', 'xabyz', 'a,b, c', 'aaa', '12.5 and 7', 'ab ab', 'x1\n2y', 'a\nc', 'ABC abc', 'abcdefghijj', 'abcdefghija0', 'abcdefghi1', 'abcdefghijklk',
-                 'aa', 'aba', 'aabaa', 'éé-e', ' a  b ', 'cabc', '1x2', 'a b', '-a-', 'abcdefghia0', 'a<b&c>d', 'b\rb', '<a b="c">&amp;</a>', 'a\\b']
+                 'aa', 'aba', 'aabaa', 'éé-e', ' a  b ', 'cabc', '1x2', 'a b', '-a-', 'abcdefghia0', 'a<b&c>d', 'b\rb', '<a b="c">&amp;</a>', 'a\\b', 'a#b', 'ac', '$x\\', '\U00010000\U00010001 z']
 CONS_FLAGS = ['', 's', 'i', 'm', 'x', 'si', 'q']
 INVALID = [r'(', r')', r'[', r'[]', r'a{2,1}', r'*a', r'a**', r'\p{Xx}', r'\p{IsNoSuchBlock}', r'[a-', r'\q', r'(?=a)', r'(?i)a', r'a{', r'[z-a]', r'\1', r'(a)\2', r'[[a]]',
            r'\p{L', r'a|*', r'+', r'[a-b-c]', r'\u0041', r'(?<n>a)', r'a{1,2,3}', r'\_']
@@ -629,6 +629,18 @@ def function_consistency(tier, seed):
                         g = _xp('replace($s, $p, $r, $f)', s=s, p=p, r=repl, f=fl)
                         if g != ('ok', s.replace(p, repl)):
                             bad('replace with the q flag is not the literal substitution', pattern=p, subject=s, replacement=repl, got=repr(g)[:80], want=s.replace(p, repl))
+    # facts outside the Python reference: XML name escapes beyond the BMP (XML 1.0 NameStartChar includes #x10000-#xEFFFF), literal characters under the x flag
+    for p, subj, fl, want in (('^\\i\\c*$', '\U00010000\U00010001', '', True), ('^\\I$', '\U00010000', '', False), ('^[\\i]$', '\U000EFFFF', '', True),
+                              ('^\\i$', '\U000F0000', '', False), ('^\\c+$', 'a\u0301\U00020000', '', True), ('^[\\$]$', '\\', '', False), ('^[\\$]$', '$', '', True),
+                              ('^a#b$', 'a#b', 'x', True), ('^a#b$', 'a', 'x', False), ('^a # b$', 'a#b', 'x', True),
+                              # category escapes are not affected by the i flag (F&O 5.6.1.1)
+                              ('^\\P{Ll}$', 'A', 'i', True), ('^\\P{Ll}$', 'a', 'i', False), ('^\\p{Lu}$', 'a', 'i', False), ('^\\p{Lu}$', 'A', 'i', True),
+                              ('^\\P{Lu}+$', 'ab', 'i', True), ('^x\\P{Lu}$', 'Xa', 'i', True), ('^x\\P{Lu}$', 'XA', 'i', False)):
+        n += 1
+        g = _xp('matches($s, $p, $f)', s=subj, p=p, f=fl)
+        if g != ('ok', want):
+            bad('matches differs from the regular expression semantics (name escapes beyond the BMP, escaped dollar in a class, # under the x flag)', pattern=p, flags=fl,
+                subject=subj, got=repr(g)[:60], want=want)
     for p in INVALID:
         n += 1
         try:
